@@ -52,6 +52,19 @@ class C01(Prop):
 
     def gen(self, rng, ctx):
         c = self.cfg(rng)
+        if rng.random() < 0.02:
+            # windows of 33..200 samples on traces of 100..260 samples over a tiny value alphabet (the extreme value
+            # repeats inside one window and its oldest copy leaves before the others)
+            c.wide, c.max_depth, c.dup, c.transcend = 0.8, rng.choice([1, 2]), 0.0, False
+            for _ in range(40):
+                f = lang.gen_formula(rng, c)
+                if any(g[1] is not None and g[1][1] - g[1][0] >= 32 for g in lang.walk(f)) and not any(
+                        g[0] in ('since', 'until', 'unless') and g[1] is not None for g in lang.walk(f)):
+                    break
+            names = lang.variables(f) or [c.vars[0]]
+            n = rng.randint(100, 260)
+            return {'formula': f, 'data': dict((k, lang.gen_values(rng, n, rng.choice(['tiny', 'tiny', 'small']))) for k in names),
+                    'kind': rng.choice(['dt', 'dt_off']), 'long': True}
         f = lang.gen_formula(rng, c)
         n = rng.choice([1, 1, 2, 3, 4, 5, 6, 8, 10, 13, 20, 40]) if rng.random() < 0.7 else rng.randint(1, 40)
         if rng.random() < 0.08:
